@@ -458,6 +458,29 @@ pub fn execute(sc: &AsyncScenario, sh: &Shared) -> Value {
                 sh.note(PH_CALL_LIVE, li as u64, oi as u64, 0);
                 awaits += 1;
                 check_await(li, oi, op.func, op.arg, &model, &mut digest, false);
+                if (oi + li) % 4 == 3 {
+                    // the same await in a forked child: it inherited the patched poll function and
+                    // must inherit what the patch leads to
+                    let (func, arg) = (op.func, op.arg);
+                    let seq_before = SEQ[func].load(Ordering::SeqCst);
+                    let want = match model[func].last() {
+                        Some(site) => (fake_value(func, *site, seq_before), 0u64),
+                        None => (original_value(func, arg), 1u64),
+                    };
+                    let w2 = want.clone();
+                    let r = crate::contain::in_fork(move || {
+                        let body_before = BODY[func].load(Ordering::SeqCst);
+                        let got = await_func(func, arg);
+                        let ran = (BODY[func].load(Ordering::SeqCst) - body_before) as u64;
+                        (got.as_deref() == Some(w2.0.as_str()) && ran == w2.1) as u64
+                    });
+                    *probes.entry("awaits_in_a_forked_child".into()).or_insert(0) += 1;
+                    match r {
+                        Ok(1) => {}
+                        Ok(_) => v("await-in-forked-child-differs-from-model", &["C14"], format!("lifetime {li} op {oi}: a forked child awaiting #{func}({arg}) did not get {:?}", want.0)),
+                        Err(e) => v("await-in-forked-child-died", &["C14"], format!("lifetime {li} op {oi}: a forked child died awaiting #{func}({arg}) ({})", if e > 0 { format!("signal {e}") } else { format!("status {}", -e) })),
+                    }
+                }
                 if op.threads > 0 {
                     // awaits on other executor threads, one after the other (each is its own await)
                     for _ in 0..op.threads {
